@@ -258,6 +258,15 @@ func (t *SessionTeardown) cleanup(session *Session, cause TerminateCause) error 
 	t.mu.Lock()
 	defer t.mu.Unlock()
 
+	// A session can be ended by several paths at once (client PADT, operator
+	// reset, dead-peer detection) and a PADT can be retransmitted. Only the
+	// termination that takes the session out of the session table tears it
+	// down; any other one finds it gone and must not release its resources or
+	// send an Accounting-Stop a second time.
+	if t.sessions != nil && !t.sessions.detach(session) {
+		return nil
+	}
+
 	ctx, cancel := context.WithTimeout(context.Background(), t.config.CleanupTimeout)
 	defer cancel()
 
@@ -289,13 +298,8 @@ func (t *SessionTeardown) cleanup(session *Session, cause TerminateCause) error 
 		)
 	}
 
-	// 4. Update session state
+	// 4. Update session state (the session left the session manager above)
 	session.SetState(StateClosed)
-
-	// 5. Remove from session manager
-	if t.sessions != nil {
-		t.sessions.RemoveSession(session.ID)
-	}
 
 	t.logger.Info("Session cleanup complete",
 		zap.Uint16("session_id", session.ID),
